@@ -2,6 +2,7 @@ package c19
 
 import (
 	"bytes"
+	"crypto/ed25519"
 	"fmt"
 	"io"
 	"reflect"
@@ -42,6 +43,7 @@ import (
 	"github.com/tink-crypto/tink-go/v2/signature/mldsa"
 	"github.com/tink-crypto/tink-go/v2/signature/slhdsa"
 	"github.com/tink-crypto/tink-go/v2/streamingaead"
+	sigsubtle "github.com/tink-crypto/tink-go/v2/signature/subtle"
 	streamsubtle "github.com/tink-crypto/tink-go/v2/streamingaead/subtle"
 	"github.com/tink-crypto/tink-go/v2/tink"
 	"github.com/tink-crypto/tink-go/v2/verifharness/hx"
@@ -550,9 +552,12 @@ var ctorPrep = map[string]func(in [][]byte){
 	"jwt/jwtecdsa.NewPublicKey(opts.PublicPoint)":   func(in [][]byte) { copy(in[0], p256Point()) },
 	"jwt/jwtrsassapkcs1.NewPublicKey(opts.Modulus)": func(in [][]byte) { in[0][0] |= 0x80; in[0][len(in[0])-1] |= 1 },
 	"jwt/jwtrsassapss.NewPublicKey(opts.Modulus)":   func(in [][]byte) { in[0][0] |= 0x80; in[0][len(in[0])-1] |= 1 },
+	"signature/subtle.NewED25519Verifier":           func(in [][]byte) { copy(in[0], ed25519FixedKey().Public().(ed25519.PublicKey)) },
 }
 
 var fixedMsg = []byte("c19 fixed message for fingerprints")
+
+func ed25519FixedKey() ed25519.PrivateKey { return ed25519.NewKeyFromSeed(bytes.Repeat([]byte{0x42}, 32)) }
 
 func ctors() []ctor {
 	return []ctor{
@@ -786,6 +791,21 @@ func ctors() []ctor {
 			}
 			return func() []byte { return k.Modulus() }, nil
 		}, []int{256}},
+		{"signature/subtle.NewED25519Verifier", func(in [][]byte) (func() []byte, error) {
+			v, err := sigsubtle.NewED25519Verifier(in[0])
+			if err != nil {
+				return nil, err
+			}
+			sig := ed25519.Sign(ed25519FixedKey(), fixedMsg)
+			return func() []byte { return []byte(fmt.Sprint(v.Verify(sig, fixedMsg))) }, nil
+		}, []int{32}},
+		{"signature/subtle.NewED25519Signer", func(in [][]byte) (func() []byte, error) {
+			s, err := sigsubtle.NewED25519Signer(in[0])
+			if err != nil {
+				return nil, err
+			}
+			return func() []byte { c, _ := s.Sign(fixedMsg); return c }, nil
+		}, []int{32}},
 		{"secretdata.NewBytesFromData", func(in [][]byte) (func() []byte, error) {
 			b := secretdata.NewBytesFromData(in[0], insecuresecretdataaccess.Token{})
 			return func() []byte { return b.Data(insecuresecretdataaccess.Token{}) }, nil
